@@ -449,11 +449,32 @@ func (t *Transpiler) transpilePromSubqueryFunc(subExpr *parser.SubqueryExpr, agg
 				t.setTimeInterval(statement)
 				statement.Fill = influxql.NoFill
 			}
+			return statement, nil
 		}
-		return statement, nil
+		return t.sealPromSubCalls(statement), nil
 	default:
 		return nil, errno.NewError(errno.UnsupportedPromExpr)
 	}
+}
+
+// sealPromSubCalls puts the statement that carries the range function of a PromQL subquery (SUBCALL)
+// below an outer statement that hands its result on unchanged. The SUBCALL runs after the fields, the
+// aggregates and the condition of its own statement, and that statement still looks like a plain selector
+// (its field is the value column): an aggregation, a scalar operand, a bool comparison or a function
+// applied to `fn(expr[range:step])` was written into it and evaluated BEFORE the range function.
+// Whatever is applied to the result now goes to the outer statement.
+func (t *Transpiler) sealPromSubCalls(statement *influxql.SelectStatement) *influxql.SelectStatement {
+	field, _ := getSelectFieldIdx(statement)
+	outer := &influxql.SelectStatement{
+		Sources:     []influxql.Source{&influxql.SubQuery{Statement: statement}},
+		Fields:      []*influxql.Field{{Expr: &influxql.VarRef{Val: field.Name(), Alias: DefaultFieldKey}, Alias: DefaultFieldKey}},
+		Dimensions:  []*influxql.Dimension{{Expr: &influxql.Wildcard{}}},
+		Step:        t.Step,
+		IsPromQuery: true,
+	}
+	// the range function answers at the evaluation timestamps: no look-back below them
+	t.setTimeCondition(outer, true)
+	return outer
 }
 
 func (t *Transpiler) transpilePromFunc(aggFn aggregateFn, inArgs []influxql.Node, setFieldsFunc SetFieldsFunc) (influxql.Node, error) {
